@@ -36,7 +36,10 @@ FLAGS = {
     'asan': ['-O1', '-g', '-fPIC', '-shared', '-fno-strict-aliasing', '-w',
              '-fsanitize=address', '-fsanitize-recover=address',
              '-fno-omit-frame-pointer'],
+    # development aid (mc/covmap.py): line coverage of the C sources under the checks; never used by a registered check
+    'gcov': ['-O0', '-g', '-fPIC', '-shared', '-fno-strict-aliasing', '-w', '--coverage'],
 }
+GCOV_SHIM = 'extern void __gcov_dump(void);\n__attribute__((visibility("default"))) void verif_gcov_dump(void) { __gcov_dump(); }\n'
 
 
 def _srcfiles(repo):
@@ -93,10 +96,14 @@ def stage(flavour='plain', repo=None, quiet=True):
                 shutil.copy(src, pkg)
         os.symlink(WHEEL + '.libs', os.path.join(tmp, 'cvxopt.libs'))
         procs = []
+        shim = []
+        if flavour == 'gcov':
+            shim = [os.path.join(tmp, 'verif_gcov_shim.c')]
+            open(shim[0], 'w').write(GCOV_SHIM)
         for mod, srcs in MODS.items():
             out = os.path.join(pkg, mod + SUFFIX)
             cmd = ['gcc'] + FLAGS[flavour] + ['-I', INC, '-I', os.path.join(repo, 'src/C'),
-                   '-o', out] + [os.path.join(repo, 'src/C', s) for s in srcs] + \
+                   '-o', out] + [os.path.join(repo, 'src/C', s) for s in srcs] + shim + \
                   ['-llapack', '-lblas', '-lm']
             procs.append((mod, subprocess.Popen(cmd, stdout=subprocess.PIPE,
                                                 stderr=subprocess.STDOUT)))
@@ -121,8 +128,11 @@ def stage(flavour='plain', repo=None, quiet=True):
 
 def env(flavour='plain', repo=None, extra=None):
     """Environment for a worker process that imports the staged package."""
-    root = stage(flavour, repo)
+    cover = os.environ.get('VERIF_COVER')
+    root = stage('gcov' if (cover and flavour == 'plain') else flavour, repo)
     e = dict(os.environ)
+    if cover:
+        e['GCOV_PREFIX'] = os.path.join(cover, 'gcda')
     pp = [root, VERIF]
     deps = os.path.join(CACHE, 'deps')
     if os.path.isdir(deps):
